@@ -55,6 +55,7 @@ func eddsaKeygenNet(rng *rand.Rand, n, t int, keys []*big.Int) *Net {
 		nd := newNode(fmt.Sprintf("P%d", i), pids[i], "", rng.Int63())
 		end := make(chan *eddsakeygen.LocalPartySaveData, 16)
 		params := tss.NewParameters(tss.Edwards(), ctx, pids[i], n, t)
+		applyConcurrency(params)
 		params.SetRand(nd.Rand)
 		params.SetPartialKeyRand(nd.Rand)
 		nd.Party = eddsakeygen.NewLocalParty(params, nd.Out, end)
@@ -84,6 +85,7 @@ func ecdsaKeygenNet(rng *rand.Rand, n, t int, keys []*big.Int, preOffset int) *N
 		nd := newNode(fmt.Sprintf("P%d", i), pids[i], "", rng.Int63())
 		end := make(chan *ecdsakeygen.LocalPartySaveData, 16)
 		params := tss.NewParameters(tss.S256(), ctx, pids[i], n, t)
+		applyConcurrency(params)
 		params.SetRand(nd.Rand)
 		params.SetPartialKeyRand(nd.Rand)
 		nd.Party = ecdsakeygen.NewLocalParty(params, nd.Out, end, fx[(i+preOffset)%len(fx)].LocalPreParams)
@@ -125,6 +127,7 @@ func eddsaSigningNet(rng *rand.Rand, keys []eddsakeygen.LocalPartySaveData, pids
 		nd := newNode(fmt.Sprintf("P%d", i), pids[i], "", rng.Int63())
 		end := make(chan *common.SignatureData, 16)
 		params := tss.NewParameters(tss.Edwards(), ctx, pids[i], len(pids), t)
+		applyConcurrency(params)
 		params.SetRand(nd.Rand)
 		if fullBytesLen >= 0 {
 			nd.Party = eddsasigning.NewLocalParty(msg, params, keys[i], nd.Out, end, fullBytesLen)
@@ -145,6 +148,7 @@ func ecdsaSigningNet(rng *rand.Rand, keys []ecdsakeygen.LocalPartySaveData, pids
 		nd := newNode(fmt.Sprintf("P%d", i), pids[i], "", rng.Int63())
 		end := make(chan *common.SignatureData, 16)
 		params := tss.NewParameters(tss.S256(), ctx, pids[i], len(pids), t)
+		applyConcurrency(params)
 		params.SetRand(nd.Rand)
 		var fl []int
 		if fullBytesLen >= 0 {
@@ -204,6 +208,7 @@ func eddsaResharingNet(rng *rand.Rand, oldKeys []eddsakeygen.LocalPartySaveData,
 		nd := newNode(name, id, role, rng.Int63())
 		end := make(chan *eddsakeygen.LocalPartySaveData, 16)
 		params := tss.NewReSharingParameters(tss.Edwards(), oldCtx, newCtx, id, len(oldPIDs), oldT, len(newPIDs), newT)
+		applyConcurrency(params)
 		params.SetRand(nd.Rand)
 		params.SetPartialKeyRand(nd.Rand)
 		nd.Party = eddsaresharing.NewLocalParty(params, key, nd.Out, end)
@@ -238,6 +243,7 @@ func ecdsaResharingNet(rng *rand.Rand, oldKeys []ecdsakeygen.LocalPartySaveData,
 		nd := newNode(name, id, role, rng.Int63())
 		end := make(chan *ecdsakeygen.LocalPartySaveData, 16)
 		params := tss.NewReSharingParameters(tss.S256(), oldCtx, newCtx, id, len(oldPIDs), oldT, len(newPIDs), newT)
+		applyConcurrency(params)
 		params.SetRand(nd.Rand)
 		params.SetPartialKeyRand(nd.Rand)
 		if !proofs {
